@@ -93,9 +93,18 @@ def gen_jacobian(r, Ls, n):
             q = r.below(len(rx)); every = r.chance(0.6)
             for c in range(ncell):
                 if every or r.chance(0.5): k[c * len(rx) + q] = 0.0
-        line = " ".join(["jacobian", str(ncell), str(ns), str(csc), str(L)] + [str(x) for x in perm] + G.mech_tokens(rx) + [hexd(v) for v in k + y])
+        rest = [str(x) for x in perm] + G.mech_tokens(rx) + [hexd(v) for v in k + y]
+        line = " ".join(["jacobian", str(ncell), str(ns), str(csc), str(L)] + rest)
         meta = dict(L=L, csc=csc, ns=ns, ncell=ncell, perm=perm, rx=rx, k=[F(v) for v in k], y=[F(v) for v in y])
         tags = ["L=%d" % L, "csc" if csc else "csr"]
+        if L and r.chance(0.35):
+            # mixed configuration (supported: the scalar kernel is selected): VectorMatrix<L> dense data with a
+            # STANDARD-ordered sparse Jacobian -- what CpuSolverBuilder<Params, VectorMatrix<double, L>> builds by default.
+            # The logical result is that of the standard ordering, so the model runs the same case with sparse L = 0.
+            c = Case(" ".join(["jacobianmix", str(ncell), str(ns), str(csc), str(L)] + rest), meta, "jacobian", oracle=O.check_jacobian,
+                     tags=tags + ["dense_vector+sparse_standard"], model_line=" ".join(["jacobian", str(ncell), str(ns), str(csc), "0"] + rest))
+            cs.append(c)
+            continue
         if L and ncell % L: tags.append("partial_group")
         if any(len(set(a)) < len(a) for a, _ in rx): tags.append("repeated_reactant")
         cs.append(Case(line, meta, "jacobian", oracle=O.check_jacobian, tags=tags))
@@ -464,6 +473,8 @@ def g_c01(r, tier, env, Ls):
 def g_c02(r, tier, env, Ls):
     cs = gen_jacobian(r, Ls, 400 if tier == "quick" else 6000)
     for c in gen_jacobian(r, Ls, 150 if tier == "quick" else 2000):
+        if c.line.startswith("jacobianmix"):
+            continue      # the flat dump is defined for matched configurations only
         c.line = "jacobianflat" + c.line[len("jacobian"):]
         c.kind = "jacobianflat"; c.oracle = None; c.tags.append("flat")
         cs.append(c)
